@@ -54,6 +54,11 @@ struct World {
     any_die: bool,
     any_inject: bool,
     stop_seen: bool,
+    live_wid: Vec<i64>,      // per incarnation: dispatched to it and not yet finished / lost
+    sent_wid: Vec<i64>,
+    recvd_wid: Vec<i64>,
+    resume_seen: bool,       // a resume command was issued since the last `poll` op ended
+    ever_no_handles: bool,
     t3: Vec<(String, String)>,
 }
 
@@ -97,6 +102,11 @@ fn parse_kind(k: &str) -> Option<io::Error> {
 }
 
 impl World {
+    /// the incarnation of worker index `idx` whose channel is open (a successful send went to it)
+    fn alive_wid(&self, idx: usize) -> Option<usize> {
+        (0..self.ends.len()).rev().find(|w| self.idx_of[*w] == idx && self.ends[*w].alive())
+    }
+
     fn live(&self, idx: usize) -> i64 {
         *self.sends_by_wid_live.get(&idx).unwrap_or(&0)
     }
@@ -165,6 +175,7 @@ impl World {
                             self.t3.push(("C01".into(), format!("connection c{id} delivered twice")));
                         }
                         self.inflight[w].push((id, inf));
+                        self.recvd_wid[w] += 1;
                         format!("c{id}@{tok}")
                     }
                     None => "none".into(),
@@ -184,6 +195,9 @@ impl World {
                 Ok(w) if w < self.ends.len() && self.ends[w].alive() => {
                     self.ends[w].die();
                     self.any_die = true;
+                    // connections still queued in its channel are lost with it
+                    let queued = self.sent_wid[w] - self.recvd_wid[w];
+                    self.live_wid[w] -= queued;
                     "ok".into()
                 }
                 Ok(_) => "bad".into(),
@@ -194,6 +208,7 @@ impl World {
                 "ok".into()
             }
             ["resume"] => {
+                self.resume_seen = true;
                 self.waker.resume();
                 "ok".into()
             }
@@ -211,6 +226,9 @@ impl World {
                         self.ends.push(ends);
                         self.idx_of.push(i);
                         self.inflight.push(vec![]);
+                        self.live_wid.push(0);
+                        self.sent_wid.push(0);
+                        self.recvd_wid.push(0);
                         self.waker.worker(handle);
                         format!("w{}", self.ends.len() - 1)
                     } else {
@@ -260,6 +278,7 @@ fn finish_inflight(w: &mut World, wi: usize, cid: &str) -> Option<bool> {
     let (_, inf) = w.inflight[wi].remove(pos);
     let idx = w.idx_of[wi];
     *w.sends_by_wid_live.entry(idx).or_insert(0) -= 1;
+    w.live_wid[wi] -= 1;
     let before = w.waker.queued();
     drop(inf); // the real WorkerCounterGuard::drop: dec (+ wake)
     Some(w.waker.queued() > before)
@@ -362,6 +381,11 @@ impl Case {
             any_die: false,
             any_inject: false,
             stop_seen: false,
+            live_wid: vec![0; workers],
+            sent_wid: vec![0; workers],
+            recvd_wid: vec![0; workers],
+            resume_seen: false,
+            ever_no_handles: false,
             t3: vec![],
         };
         Ok(Case {
@@ -436,6 +460,10 @@ fn install_hook(world: &Rc<RefCell<World>>, yields: &Rc<RefCell<usize>>, chunks:
                 let m = w.max_live.entry(idx).or_insert(0);
                 if live > *m {
                     *m = live;
+                }
+                if let Some(wid) = w.alive_wid(idx) {
+                    w.live_wid[wid] += 1;
+                    w.sent_wid[wid] += 1;
                 }
                 // T3 (C02): more than `limit` connections in progress at one worker (fault-free runs)
                 if !w.any_die && live > w.limit as i64 {
@@ -624,7 +652,6 @@ fn run(a: &Args) {
                             *c.yields.borrow_mut() = 0;
                             install_hook(&c.world, &c.yields, chunks, disp.clone());
                             let before = c.driver.state(c.world.borrow().nidx);
-                            let wq_before = c.world.borrow().waker.queued();
                             let r = catch(std::panic::AssertUnwindSafe(|| c.driver.step()));
                             let y = *c.yields.borrow();
                             match r {
@@ -659,23 +686,42 @@ fn run(a: &Args) {
                                             }
                                         }
                                     }
-                                    // C05: nothing is dispatched by an iteration that started paused and processed no resume
-                                    if before.paused && after.paused && wq_before == 0 && quiet && !d.is_empty() {
-                                        w.t3.push(("C05".into(), format!("{} connection(s) dispatched while paused", d.len())));
+                                    // C05: nothing is dispatched by an iteration that starts and ends paused when no
+                                    // resume command was issued since the previous iteration ended
+                                    if before.paused && after.paused && !w.resume_seen && !d.is_empty() {
+                                        w.t3.push(("C05".into(), format!("{} connection(s) dispatched while paused (no resume was issued)", d.len())));
                                     }
-                                    // C03 / C01 at quiescent states: two consecutive chunk-free iterations, queue drained
-                                    if quiet && c.prev_op_was_quiet_poll && w.waker.queued() == 0 && !after.paused && !report.exited
-                                        && after.socket_deadlines.iter().all(|d| d.is_none()) && !w.any_die && !c.stop_cmd
+                                    w.resume_seen = false;
+                                    // C05: an expired back-off deadline never survives an iteration
+                                    if !report.exited {
+                                        for (l, dl) in after.socket_deadlines.iter().enumerate() {
+                                            if *dl == Some(Duration::ZERO) {
+                                                w.t3.push(("C05".into(), format!("listener {l}: its accept back-off has expired but this iteration did not re-arm it (still deregistered with a deadline)")));
+                                            }
+                                        }
+                                    }
+                                    if after.handles.is_empty() {
+                                        w.ever_no_handles = true;
+                                    }
+                                    // C03 / C01 / C08 at quiescent states: two consecutive chunk-free iterations
+                                    if quiet && c.prev_op_was_quiet_poll && !after.paused && !report.exited && !c.stop_cmd
+                                        && after.socket_deadlines.iter().all(|d| d.is_none())
                                     {
-                                        let spare = (0..w.nidx).any(|i| w.live(i) < w.limit as i64);
+                                        let tags: &[&str] = if w.any_die { &["C08"] } else { &["C03", "C01"] };
+                                        if w.waker.queued() > 0 {
+                                            let msg = format!("{} notification(s) are still in the waker queue after two full iterations: wake-ups are not being processed", w.waker.queued());
+                                            for t in tags { w.t3.push((t.to_string(), msg.clone())); }
+                                        }
+                                        // a live worker that has a handle and spare capacity
+                                        let spare: Vec<usize> = after.handles.iter().cloned()
+                                            .filter(|idx| w.alive_wid(*idx).map_or(false, |wid| w.live_wid[wid] < w.limit as i64)).collect();
                                         let sent = w.sends.len();
                                         let opened = w.connected.len();
-                                        if spare && sent < opened {
+                                        if !spare.is_empty() && sent < opened && !w.ever_no_handles {
                                             let msg = format!(
-                                                "quiescent, not paused, a worker has spare capacity (in progress per worker: {:?}, limit {}) but {} accepted-able connection(s) are still waiting",
-                                                (0..w.nidx).map(|i| w.live(i)).collect::<Vec<_>>(), w.limit, opened - sent);
-                                            w.t3.push(("C03".into(), msg.clone()));
-                                            w.t3.push(("C01".into(), msg));
+                                                "quiescent, not paused, worker(s) {:?} are alive, in the rotation and below the limit {} but {} connection(s) are still waiting to be dispatched",
+                                                spare, w.limit, opened - sent);
+                                            for t in tags { w.t3.push((t.to_string(), msg.clone())); }
                                         }
                                     }
                                     c.prev_op_was_quiet_poll = quiet;
@@ -702,6 +748,7 @@ fn run(a: &Args) {
                                     pos.map(|p| {
                                         let idx = w.idx_of[wi];
                                         *w.sends_by_wid_live.entry(idx).or_insert(0) -= 1;
+                                        w.live_wid[wi] -= 1;
                                         w.inflight[wi].remove(p).1
                                     })
                                 } else {
